@@ -90,7 +90,13 @@ def rule_r5_names(ctx: Ctx) -> None:
                     lowered_everywhere = False
     need_msg = {"empty guard": empty_guard, "first-char set": first_set, "continuation set": rest_set, "string compare": string_cmp_ok, "regex compare": regex_method, "pattern list": sorted(pattern_sources)}
     if not (empty_guard and first_set and rest_set and string_cmp_ok and regex_method and len(pattern_sources) == 1):
-        ctx.fail(fn.short, "check_name structure", "check_name no longer has all guards (empty, first character, every character, reserved strings, reserved patterns)", where=fn.where(), detail=need_msg)
+        # the function is not written as the five guards this rule knows how to read off (it may have been restructured):
+        # decide it by evaluation over a grid of names instead - every reserved word and pattern instance in several letter
+        # cases, their near misses, every single-character name, names with each illegal character in each position
+        ctx.rule_min["C05.R5"] = 2  # (the exact comparison yields six instances; this path has the grid and the call sites)
+        bad_grid = _check_name_on_grid(ctx, fn)
+        ctx.check(not bad_grid, fn.short, "check_name evaluated on a grid of names (its structure is not the one the exact comparison reads)", "a name is accepted exactly when it is non-empty, starts with [A-Za-z_], continues with [A-Za-z0-9_] and is not reserved (ignoring case)", fn.where(), bad_grid[:6])
+        _must_call_sites(ctx, repo)
         return
     ctx.check(raise_classes_ok, fn.short, "rejection class", "name rejections must be InvalidDefinitionError subclasses", fn.where())
     # alphabets
@@ -133,6 +139,44 @@ def rule_r5_names(ctx: Ctx) -> None:
     ctx.check(same, "_serializable._name." + plist_name, "reserved-name language", "the set of reserved names must equal the Specification's (compared as regular languages over [a-z0-9_])", mod.relpath, {"rejected_but_allowed_by_spec": only_code, "accepted_but_reserved_by_spec": only_spec, "dfa_states": [code_lang.n, spec_lang.n]})
     ctx.sample({"rule": "C05.R5", "reserved_language_dfa_states": code_lang.n, "words": len(words), "patterns": len(dfas)})
 
+    _must_call_sites(ctx, repo)
+
+
+def _check_name_on_grid(ctx: Ctx, fn: Any) -> List[Dict[str, Any]]:
+    import re as _re
+
+    from ..absint import Raised, call_fn
+
+    words = sorted(spec.RESERVED_WORDS)
+    inst = ["void", "void1", "void64", "voida", "avoid", "int", "uint", "int8", "uint64", "uint8x", "xint8", "q8_8", "uq16_16", "q8", "q8_", "q_8", "uq", "float", "float16", "float1", "floats", "afloat", "com1", "com", "com10", "lpt9", "lpt", "lptx", "_a_", "__", "_", "a_", "_a", "_abc_", "a__b"]
+    names = {""}
+    for w in words + inst:
+        names |= {w, w.upper(), w.capitalize(), w + "x", "x" + w, w[:-1] if len(w) > 1 else w}
+    names |= {"a", "Z", "_", "a1", "A_b9", "x" * 60, "1", "1a", "9_", "a-b", "a b", "a.b", "\u00e9a", "a\u00e9", "a$", "$a", "-", " ", "a\n"}
+    names |= {c for c in "abzAZ_019-. $"}
+    bad = []
+    for nm in sorted(names):
+        low = nm.lower()
+        want_ok = bool(nm) and nm[0] in spec.NAME_FIRST and all(ch in spec.NAME_REST for ch in nm) and low not in spec.RESERVED_WORDS and not any(_re.fullmatch(p_, low) for p_ in spec.RESERVED_PATTERNS)
+        try:
+            call_fn(ctx, fn, [nm], keep=())
+            got = "accepted"
+        except Raised as r:
+            got = r.cls_name
+        except Unfoldable as ex:
+            raise AnalysisError("check_name(%r): cannot evaluate: %s" % (nm, ex))
+        ctx.count()
+        if (got == "accepted") != want_ok or (got != "accepted" and not _is_ide_name(ctx, got)):
+            bad.append({"name": nm, "found": got, "expected": "accepted" if want_ok else "an InvalidDefinitionError"})
+    return bad
+
+
+def _is_ide_name(ctx: Ctx, name: str) -> bool:
+    k = next((c for c in ctx.repo.all_classes().values() if c.name == name), None)
+    return k is not None and ctx.repo.is_subclass(k, "_error.InvalidDefinitionError")
+
+
+def _must_call_sites(ctx: Ctx, repo: Any) -> None:
     # must-call: Attribute.__init__
     attr = ctx.cls(SER + "_attribute.Attribute")
     ainit = attr.methods.get("__init__")
